@@ -409,6 +409,8 @@ def main():
             "timings": {k: v for k, v in ctx.stats.items() if k.endswith("_s")},
             "not_covered": getattr(H, "NOT_COVERED", []),
             "notes": ctx.notes,
+            "explanation": getattr(H, "EXPLANATION", "obligations = Lean theorems of the property built and axiom-audited in this run; the model is tied to "
+                                   "the code by the translator validation and/or the correspondence harness whose counts are listed here"),
         }
         if len(names) == 0:
             cov.pop("obligations"); cov.pop("discharged")
